@@ -52,7 +52,7 @@ __CPROVER_assigns(g_popped)
 __CPROVER_ensures(g_popped == __CPROVER_old(g_popped) + 1)
 ;
 void mq_push_back(fsm_t* self, call_t c)
-__CPROVER_requires(c.target == self)                                             /*@ob C04.stored-for-the-machine-it-was-sent-to */
+__CPROVER_requires(c.target == self)                                             /*@ob C04,C07.stored-for-the-machine-it-was-sent-to */
 __CPROVER_requires(EV_EQ(c.ev, g_evt))                                           /*@ob C04,C18.stored-event-keeps-type-and-payload */
 __CPROVER_requires((c.src & EVENT_SOURCE_MSG_QUEUE) != 0)                        /*@ob C04.stored-call-is-marked-as-coming-from-the-queue */
 __CPROVER_requires(g_pushed < TICKET_MAX)
@@ -63,9 +63,9 @@ static call_t mk_call(fsm_t* target, event_t ev, EventSource src) { call_t c; c.
 
 /* invoking a stored functor = target->process_event_internal(ev, src) (its own unit, below) */
 HandledEnum invoke_call(call_t c)
-__CPROVER_requires(c.ticket == g_dispatched)                                     /*@ob C04.dispatched-in-submission-order-exactly-once */
+__CPROVER_requires(c.ticket == g_dispatched)                                     /*@ob C04,C20.dispatched-in-submission-order-exactly-once */
 __CPROVER_requires(g_dispatched < g_popped)                                      /*@ob C04,C20.dispatched-only-after-removal-from-the-queue-the-dispatcher-owns-the-occurrence */
-__CPROVER_requires(!g_self->m_event_processing || g_no_msg_queue)               /*@ob C04.queued-event-never-interrupts-a-running-step */
+__CPROVER_requires(!g_self->m_event_processing || g_no_msg_queue)               /*@ob C04,C10.queued-event-never-interrupts-a-running-step */
 __CPROVER_assigns(g_dispatched, g_pushed, g_exc)
 __CPROVER_ensures(g_dispatched == __CPROVER_old(g_dispatched) + 1 && g_pushed >= __CPROVER_old(g_pushed))
 ;
@@ -77,13 +77,13 @@ _Bool do_pre_msg_queue_helper(fsm_t* self, type_t EventT, event_t evt, _Bool no_
 __CPROVER_requires(__CPROVER_is_fresh(self, sizeof(*self)) && EV_EQ(evt, g_evt) && g_pushed < TICKET_MAX)
 __CPROVER_assigns(self->m_event_processing, g_pushed)
 __CPROVER_ensures(no_queue ==> (__CPROVER_return_value && g_pushed == __CPROVER_old(g_pushed) && self->m_event_processing == __CPROVER_old(self->m_event_processing)))
-__CPROVER_ensures((!no_queue && __CPROVER_old(self->m_event_processing)) ==> (!__CPROVER_return_value && g_pushed == __CPROVER_old(g_pushed) + 1 && self->m_event_processing))   /*@ob C04.event-submitted-during-a-step-is-stored-not-run */
-__CPROVER_ensures((!no_queue && !__CPROVER_old(self->m_event_processing)) ==> (__CPROVER_return_value && g_pushed == __CPROVER_old(g_pushed) && self->m_event_processing))       /*@ob C04.step-marks-the-machine-busy */
+__CPROVER_ensures((!no_queue && __CPROVER_old(self->m_event_processing)) ==> (!__CPROVER_return_value && g_pushed == __CPROVER_old(g_pushed) + 1 && self->m_event_processing))   /*@ob C04,C10.event-submitted-during-a-step-is-stored-not-run */
+__CPROVER_ensures((!no_queue && !__CPROVER_old(self->m_event_processing)) ==> (__CPROVER_return_value && g_pushed == __CPROVER_old(g_pushed) && self->m_event_processing))       /*@ob C04,C10.step-marks-the-machine-busy */
 ;
 void do_allow_event_processing_after_transition(fsm_t* self, _Bool no_queue)
 __CPROVER_requires(__CPROVER_is_fresh(self, sizeof(*self)))
 __CPROVER_assigns(self->m_event_processing)
-__CPROVER_ensures(no_queue ? (self->m_event_processing == __CPROVER_old(self->m_event_processing)) : !self->m_event_processing)    /*@ob C04.busy-mark-cleared-after-the-step */
+__CPROVER_ensures(no_queue ? (self->m_event_processing == __CPROVER_old(self->m_event_processing)) : !self->m_event_processing)    /*@ob C04,C10.busy-mark-cleared-after-the-step */
 ;
 /* process_message_queue / execute_queued_events_helper: drain loop */
 void process_message_queue(fsm_t* self)
@@ -91,7 +91,7 @@ __CPROVER_requires(__CPROVER_is_fresh(self, sizeof(*self)) && self == g_self && 
 __CPROVER_requires(g_popped <= g_pushed && g_dispatched == g_popped && !g_exc)
 __CPROVER_assigns(g_popped, g_dispatched, g_pushed, g_exc)
 __CPROVER_ensures(!g_exc ==> g_popped == g_pushed)                               /*@ob C04.drain-leaves-nothing-pending */
-__CPROVER_ensures(!g_exc ==> g_dispatched == g_popped)                           /*@ob C04.every-removed-event-was-dispatched */
+__CPROVER_ensures(!g_exc ==> g_dispatched == g_popped)                           /*@ob C04,C20.every-removed-event-was-dispatched */
 ;
 void execute_single_queued_event(fsm_t* self)
 __CPROVER_requires(__CPROVER_is_fresh(self, sizeof(*self)) && self == g_self && !self->m_event_processing)
@@ -102,7 +102,7 @@ __CPROVER_ensures(g_popped == __CPROVER_old(g_popped) + 1 && g_dispatched == g_p
 void enqueue_event_helper(fsm_t* self, event_t evt, _Bool no_queue)
 __CPROVER_requires(__CPROVER_is_fresh(self, sizeof(*self)) && EV_EQ(evt, g_evt) && g_pushed < TICKET_MAX)
 __CPROVER_assigns(g_pushed)
-__CPROVER_ensures(g_pushed == __CPROVER_old(g_pushed) + (no_queue ? 0 : 1))       /*@ob C04.enqueue-stores-exactly-one-occurrence */
+__CPROVER_ensures(g_pushed == __CPROVER_old(g_pushed) + (no_queue ? 0 : 1))       /*@ob C04,C20.enqueue-stores-exactly-one-occurrence */
 ;
 
 /* ---- process_event_internal and what it calls ---- */
@@ -113,8 +113,8 @@ __CPROVER_ensures(__CPROVER_return_value == (has_blocking && g_blocked))
 ;
 HandledEnum do_process_helper(fsm_t* self, type_t EventT, event_t evt, _Bool no_exception_thrown, _Bool is_direct_call)
 __CPROVER_requires(g_step == 0 && g_nproc == 0)
-__CPROVER_requires(!g_blocked || !g_has_blocking_states)                         /*@ob C11.blocked-machine-processes-nothing */
-__CPROVER_requires(g_no_msg_queue || self->m_event_processing)                   /*@ob C04.whole-step-runs-with-the-busy-mark-set */
+__CPROVER_requires(!g_blocked || !g_has_blocking_states)                         /*@ob C11,C04.blocked-machine-processes-nothing */
+__CPROVER_requires(g_no_msg_queue || self->m_event_processing)                   /*@ob C04,C10.whole-step-runs-with-the-busy-mark-set */
 __CPROVER_requires(EV_EQ(evt, g_evt) && no_exception_thrown == g_no_exception_thrown)
 __CPROVER_requires(is_direct_call == ((g_source & EVENT_SOURCE_DIRECT) != 0))    /*@ob C06.direct-call-flag-from-the-event-source */
 __CPROVER_assigns(g_step, g_nproc, g_handled, g_pushed, g_exc)
@@ -124,8 +124,8 @@ __CPROVER_ensures(no_exception_thrown || !g_exc)
 ;
 /* handle_eventless_transitions_helper(this, handled).process_completion_event(source)  (LAMBDA0: helper object) */
 void process_completion_event(fsm_t* self, _Bool handled, EventSource source)
-__CPROVER_requires(g_step == 1 && !g_exc)                                        /*@ob C10.completion-event-issued-before-deferred-and-queued-events */
-__CPROVER_requires(handled == ((g_handled & HANDLED_TRUE) != 0))                 /*@ob C10.completion-event-only-after-a-taken-transition */
+__CPROVER_requires(g_step == 1 && !g_exc)                                        /*@ob C10,C04,C05.completion-event-issued-before-deferred-and-queued-events */
+__CPROVER_requires(handled == ((g_handled & HANDLED_TRUE) != 0))                 /*@ob C10,C02.completion-event-only-after-a-taken-transition */
 __CPROVER_requires(g_no_msg_queue || !self->m_event_processing)                  /*@ob C10.completion-event-is-dispatched-at-once-not-queued */
 __CPROVER_requires(source == g_source)
 __CPROVER_assigns(g_step, g_pushed, g_exc)
@@ -137,8 +137,8 @@ __CPROVER_ensures(g_no_exception_thrown || !g_exc)
 #define PCE2(self, h, s) process_completion_event(self, h, s)
 #define PROCESS_COMPLETION_EVENT(...) PCE_SEL(__VA_ARGS__, PCE2, PCE1, PCE0)(__VA_ARGS__)
 void do_handle_prio_msg_queue_deferred_queue(fsm_t* self, EventSource source, HandledEnum handled, _Bool queue_first)
-__CPROVER_requires(g_step == 2 && !g_exc)                                        /*@ob C10.deferred-and-queued-events-only-after-the-completion-event */
-__CPROVER_requires(g_no_msg_queue || !self->m_event_processing)                  /*@ob C04.pending-events-run-after-the-step-completed */
+__CPROVER_requires(g_step == 2 && !g_exc)                                        /*@ob C10,C04,C05.deferred-and-queued-events-only-after-the-completion-event */
+__CPROVER_requires(g_no_msg_queue || !self->m_event_processing)                  /*@ob C04,C10.pending-events-run-after-the-step-completed */
 __CPROVER_requires(source == g_source && (int)handled == g_handled && queue_first == g_queue_before_deferred)
 __CPROVER_assigns(g_step, g_pushed, g_popped, g_dispatched, g_exc)
 __CPROVER_ensures(g_step == 3)
@@ -149,8 +149,8 @@ HandledEnum process_event_internal(fsm_t* self, event_t evt, EventSource source)
 __CPROVER_requires(__CPROVER_is_fresh(self, sizeof(*self)) && self == g_self && EV_EQ(evt, g_evt) && source == g_source)
 __CPROVER_requires(g_step == 0 && g_nproc == 0 && !g_exc && g_pushed < TICKET_MAX)
 __CPROVER_assigns(self->m_event_processing, g_step, g_nproc, g_handled, g_pushed, g_popped, g_dispatched, g_exc)
-__CPROVER_ensures((g_has_blocking_states && g_blocked) ==> (__CPROVER_return_value == HANDLED_TRUE && g_nproc == 0 && g_step == 0 && g_pushed == __CPROVER_old(g_pushed) && self->m_event_processing == __CPROVER_old(self->m_event_processing)))   /*@ob C11.blocked-event-is-swallowed-without-any-effect */
-__CPROVER_ensures((!(g_has_blocking_states && g_blocked) && !g_no_msg_queue && __CPROVER_old(self->m_event_processing)) ==> (__CPROVER_return_value == HANDLED_TRUE && g_nproc == 0 && g_step == 0 && g_pushed == __CPROVER_old(g_pushed) + 1 && self->m_event_processing))   /*@ob C04.event-submitted-during-a-step-is-only-stored */
+__CPROVER_ensures((g_has_blocking_states && g_blocked) ==> (__CPROVER_return_value == HANDLED_TRUE && g_nproc == 0 && g_step == 0 && g_pushed == __CPROVER_old(g_pushed) && self->m_event_processing == __CPROVER_old(self->m_event_processing)))   /*@ob C11,C05,C04.blocked-event-is-swallowed-without-any-effect */
+__CPROVER_ensures((!(g_has_blocking_states && g_blocked) && !g_no_msg_queue && __CPROVER_old(self->m_event_processing)) ==> (__CPROVER_return_value == HANDLED_TRUE && g_nproc == 0 && g_step == 0 && g_pushed == __CPROVER_old(g_pushed) + 1 && self->m_event_processing))   /*@ob C04,C10.event-submitted-during-a-step-is-only-stored */
 __CPROVER_ensures((!(g_has_blocking_states && g_blocked) && (g_no_msg_queue || !__CPROVER_old(self->m_event_processing)) && !g_exc) ==> (g_nproc == 1 && g_step == 3 && (int)__CPROVER_return_value == g_handled))   /*@ob C04,C10.one-step-then-completion-then-pending-events */
 __CPROVER_ensures((!(g_has_blocking_states && g_blocked) && !g_no_msg_queue && !__CPROVER_old(self->m_event_processing) && !g_no_exception_thrown) ==> !self->m_event_processing)   /*@ob C04,C12.machine-not-left-busy */
 __CPROVER_ensures(!g_no_exception_thrown ==> !g_exc)                                                                              /*@ob C12.exception-does-not-escape */
@@ -181,8 +181,8 @@ __CPROVER_requires(g_no_msg_queue || self->m_event_processing)                  
 __CPROVER_assigns(g_nproc, g_handled, g_exc, g_exc_caught, g_nt_calls, g_threw)
 __CPROVER_ensures(g_nproc == 1)
 __CPROVER_ensures(no_exception_thrown || !g_exc)                                                              /*@ob C12.exception-does-not-escape */
-__CPROVER_ensures((!no_exception_thrown && g_threw) ==> (g_exc_caught == 1 && __CPROVER_return_value == HANDLED_FALSE))    /*@ob C12.caught-exception-means-event-not-handled */
-__CPROVER_ensures((!no_exception_thrown && g_threw) ==> g_nt_calls == __CPROVER_old(g_nt_calls))             /*@ob C12.no-transition-not-reported-for-an-aborted-event */
+__CPROVER_ensures((!no_exception_thrown && g_threw) ==> (g_exc_caught == 1 && __CPROVER_return_value == HANDLED_FALSE))    /*@ob C12,C06.caught-exception-means-event-not-handled */
+__CPROVER_ensures((!no_exception_thrown && g_threw) ==> g_nt_calls == __CPROVER_old(g_nt_calls))             /*@ob C12,C06.no-transition-not-reported-for-an-aborted-event */
 __CPROVER_ensures(!g_threw ==> (g_exc_caught == 0 && (int)__CPROVER_return_value == g_handled))
 ;
 
@@ -197,7 +197,7 @@ __CPROVER_ensures(__CPROVER_return_value == (flag == TerminateFlag ? g_flag_term
 _Bool blocked_helper_unit(fsm_t* self, type_t EventT, _Bool has_blocking)
 __CPROVER_requires(TerminateFlag != InterruptedFlag && TerminateFlag < 1000 && InterruptedFlag < 1000 && 0 <= EventT && EventT < 1000000 && Event == EventT)
 __CPROVER_assigns()                                                                                                       /*@ob C11.blocking-test-changes-nothing */
-__CPROVER_ensures(__CPROVER_return_value == (has_blocking && (g_flag_terminate || (g_flag_interrupted && !g_flag_end_interrupt))))   /*@ob C11.blocked-iff-terminated-or-interrupted-without-end-event */
+__CPROVER_ensures(__CPROVER_return_value == (has_blocking && (g_flag_terminate || (g_flag_interrupted && !g_flag_end_interrupt))))   /*@ob C11,C17.blocked-iff-terminated-or-interrupted-without-end-event */
 ;
 
 /* ---- handle_eventless_transitions_helper::process_completion_event (machines that have completion rows): the completion event is issued
@@ -214,6 +214,6 @@ __CPROVER_ensures(g_ccalls2 == 1)
 void pce_unit(eventless_helper_t* h, EventSource source)
 __CPROVER_requires(__CPROVER_is_fresh(h, sizeof(*h)) && source == g_src2 && g_ccalls2 == 0)
 __CPROVER_assigns(g_ccalls2)
-__CPROVER_ensures(g_ccalls2 == (h->handled ? 1 : 0))                                                     /*@ob C10.completion-event-only-after-a-taken-transition */
+__CPROVER_ensures(g_ccalls2 == (h->handled ? 1 : 0))                                                     /*@ob C10,C02.completion-event-only-after-a-taken-transition */
 ;
 #endif
